@@ -355,7 +355,8 @@ impl Hooks for Ctl {
                 }
                 PushAnswer::ConnError => {
                     // a genuine reqwest::Error (there is no public constructor): a request whose URL cannot be parsed
-                    Err(reqwest::Client::new().get("http://").build().unwrap_err())
+                    thread_local! { static CLIENT: reqwest::Client = reqwest::Client::new(); }
+                    Err(CLIENT.with(|c| c.get("http://").build().unwrap_err()))
                 }
             }
         })
